@@ -5,6 +5,9 @@ import GomlVerif.Driver.C15
 import GomlVerif.Driver.SemRun
 import GomlVerif.Driver.C11
 import GomlVerif.Driver.C19
+import GomlVerif.Driver.C13
+import GomlVerif.Driver.C15
+import GomlVerif.Driver.C16
 
 def main (args : List String) : IO UInt32 := do
   match args with
@@ -16,4 +19,7 @@ def main (args : List String) : IO UInt32 := do
   | ["c11"] => Goml.Driver.C11.main; return 0
   | ["c17"] => Goml.Driver.C19.main; return 0
   | ["c19"] => Goml.Driver.C19.main; return 0
+  | ["c13"] => Goml.Driver.C13.main; return 0
+  | ["c15"] => Goml.Driver.C15.main; return 0
+  | ["c16"] => Goml.Driver.C16.main; return 0
   | _ => IO.eprintln "usage: gomlmodel <c05|…> < lines"; return 2
